@@ -18,7 +18,7 @@ TAGS = {
 }
 TAGSPECS = list(TAGS)
 OPS = {"Equal": "==", "NotEqual": "!=", "Contain": "contains", "Match": "=~", "NotMatch": "!~"}
-HOWS = {"find": (1, 2), "count": (1, 2), "list": (2, 3), "countg": (1, 4)}   # how -> (filter token index, token count)
+HOWS = {"find": (1, 2), "count": (1, 2), "list": (2, 3), "countg": (1, 4), "list2": (2, 3), "countg2": (1, 4)}   # how -> (filter token index, token count)
 
 PLAIN = ["", " ", "  ", "\t", "\r", "'", "\\", "\\\\", "(", ")", "AND", " AND ", ") AND (", "a", "Z", "b c", "é", "€",
          "\U0001F600", "\x01", "\x1f", "\x7f", "!", "==", "(x == 'y')", "\\'", "contains", "-", "_"]
@@ -38,7 +38,7 @@ def enc(t):
         return f"t/{t[1]}/{hexs(t[2])}"
     if k in "EA":
         return f"{k}/{t[1]}"
-    if k in "N!":
+    if k in "N!R":
         return f"{k}({enc(t[1])})"
     return f"&({enc(t[1])},{enc(t[2])})"
 
@@ -47,7 +47,7 @@ def dec(s):
     def go(i):
         if i + 1 < len(s) and s[i + 1] == "(":
             k = s[i]
-            if k in "N!":
+            if k in "N!R":
                 x, j = go(i + 2)
                 assert s[j] == ")"
                 return (k, x), j + 1
@@ -116,6 +116,8 @@ def mirror(t):
         return ("L", tag_name(t[1]), "==", b"")
     if k in "N!":
         return ("N", mirror(t[1]))
+    if k == "R":        # rendered once by reference at this point: a filter is a value, its meaning does not depend on having been rendered
+        return mirror(t[1])
     return norm(("A", [mirror(t[1]), mirror(t[2])]))
 
 
@@ -224,8 +226,11 @@ def gen_tree(rng, depth):
     if depth <= 1 or rng.random() < 0.25:
         return gen_leaf(rng)
     r = rng.random()
+    if r < 0.08:
+        return ("R", gen_tree(rng, depth - 1))
     if r < 0.3:
-        return (rng.choice("N!"), gen_tree(rng, depth - 1))
+        t = gen_tree(rng, depth - 1)
+        return (rng.choice("N!"), ("R", t) if rng.random() < 0.2 else t)
     n = rng.choice([2, 2, 3, 3, 4, 5])
     items = [gen_tree(rng, depth - 1) for _ in range(n)]
     return assoc(rng, items, rng.choice(["left", "right", "balanced", "random"]))
@@ -247,6 +252,14 @@ def corpus():
     c.append(("find", ("N", l("hello"))))
     c.append(("find", ("!", l("hello"))))
     c.append(("find", ("N", ("N", l("x")))))
+    # a filter that was already rendered (sent once, or logged) and is then negated / extended / sent again
+    c.append(("find", ("N", ("R", l("live")))))
+    c.append(("count", ("!", ("!", ("R", l("live"))))))
+    c.append(("find", ("&", ("R", l("a")), l("b"))))
+    c.append(("find", ("R", ("N", ("R", l("x"))))))
+    # a prepared list / grouped count whose filter is set a second time
+    c.append(("list2", ("&", l("a\\b"), ("N", l("it's (AND) é")))))
+    c.append(("countg2", l("second")))
     c.append(("count", ("&", l("hello"), ("t", "n:Album", "world"))))
     three = [l("hello"), ("t", "n:Album", "world"), ("t", "n:Title", "foo")]
     for how in ("left", "right", "balanced"):
